@@ -80,6 +80,16 @@ def cases(tier, seed):
             for px in gen.all_stores(n, mode, (1, 2)) if n == 1 else list(gen.all_stores(n, mode, (1,)))[::2]:
                 yield mk(rng, table, mode, px, k)
                 k += 1
+    # tables with exactly as many bins as a narrow STORED ID dtype can number (256 for uint8, 128 for int8), last bin occupied
+    for nb, dt in ((256, 5), (128, 6), (256, 7), (200, 5)):
+        table = gen.binnify([nb], 1)
+        for mode in ("symm", "square"):
+            px = sorted([[0, 1, 5], [3, nb - 1, 6], [nb - 1, nb - 1, 7], [nb - 2, nb - 1, 2]] + ([[nb - 1, 0, 3]] if mode == "square" else []))
+            drv, case = mk(rng, table, mode, px, k)
+            case.update({"form": "frame", "cols": ["count"], "px": [p[:3] for p in case["px"]], "dt": dt, "scale": 1,
+                         "id_dtype": "int64", "labels": "default"})
+            yield drv, case
+            k += 1
     # more bins than a narrow ID dtype can multiply: records within the chunks unsorted, create() sorts them
     wide = gen.binnify([12, 8], 1)
     for j in range(12 if tier == "quick" else 120):
